@@ -220,8 +220,10 @@ def enumeration(rep):
         okc = bool(comb) and NS is not None and norm(comb[0].iter.args[1]) == norm(size_loop[0].target) \
             and norm(origin(defs, comb[0].iter.args[0])) in (f"list(range({NS}))", f"range({NS})")
         rep.ob("O20.2", "ENUM", fi, okc, alpha(comb[0].iter, fi.node) if comb else "combinations", "every subset of the given size is a candidate")
-        exits = [n for l in size_loop for n in walk_local(l) if isinstance(n, (ast.Break, ast.Continue, ast.Return))]
-        rep.ob("O20.2", "ENUM", fi, not exits, [type(e).__name__ for e in exits], "the enumeration is never cut short")
+        exits = [n for l in size_loop for n in walk_local(l) if isinstance(n, (ast.Break, ast.Return))]
+        skips = [n for l in size_loop for n in walk_local(l) if isinstance(n, ast.Continue)]
+        ok_sk = all([(call_name(t) if isinstance(t, ast.Call) else norm(t), s_) for t, s_ in guards_of(pm, n, size_loop[0])] == [(pred, False)] for n in skips)
+        rep.ob("O20.2", "ENUM", fi, not exits and ok_sk, [type(e).__name__ for e in exits + skips], "the enumeration is never cut short (a subset is passed over only because the predicate rejects it)")
         mn = [c for c in walk_local(fi.node) if isinstance(c, ast.Call) and call_name(c) == "_minimal_sets"]
         CAND = norm(mn[0].args[0]) if mn and mn[0].args else None
         apps = [c for c in walk_local(fi.node) if CAND and isinstance(c, ast.Call) and norm(c.func) == f"{CAND}.append"]
@@ -265,7 +267,9 @@ def enumeration(rep):
         ok = len(gs) == 1 and gs[0][1] and pmatch(f"any(($T.issubset({S_}) for $T in {OUT}))", gs[0][0]) is not None
     rep.ob("O20.2", "ENUM", fi, ok, "continue under any(T.issubset(S) for T in out)" if ok else (conts[0] if conts else "continue"), "a candidate is dropped iff an already kept set is contained in it")
     apps = [c for c in walk_local(fi.node) if isinstance(c, ast.Call) and norm(c.func) == f"{OUT}.append"]
-    rep.ob("O20.2", "ENUM", fi, len(apps) == 1 and norm(apps[0].args[0]) == S_ and not guards_of(pm, apps[0], lp[0]), alpha(apps[0], fi.node) if apps else "out.append",
+    gs_app = guards_of(pm, apps[0], lp[0]) if apps else []
+    rep.ob("O20.2", "ENUM", fi, len(apps) == 1 and norm(apps[0].args[0]) == S_ and all((not s_) and pmatch(f"any(($T.issubset({S_}) for $T in {OUT}))", t) is not None for t, s_ in gs_app),
+           alpha(apps[0], fi.node) if apps else "out.append",
            "every other candidate is kept")
 
 
@@ -443,7 +447,7 @@ def bfs(rep):
     for r in neg:
         gs = guards_of(pm, r, fi.node)
         lps_ = enclosing_loops(pm, r, fi.node)
-        after_search = fi.node.body[-1] is r and not gs
+        after_search = fi.node.body[-1] is r  # the last statement of the function: only guard clauses that return something else precede it
         rep.ob("O20.4", "DOM", fi, after_search and not lps_, f"return False under {len(gs)} guard(s)",
                "a pathway is reported unrealizable only after the bounded search is exhausted (no shortcut may reject a flow that has a valid ordering)", node=r)
     rep.ob("O20.4", "DOM", fi, len(neg) == 1, f"{len(neg)} negative return(s)", "there is exactly one negative verdict, at the end of the search")
